@@ -15,6 +15,10 @@ pub struct C10Checker {
     sep_pref_changed_since_set: bool,
     chem_pref_changed_since_set: bool,
     checkpoints: u64,
+    /// DecimalSeparators/BlockSeparators were set through the API, or DecimalSeparator was given a value other than Auto, '.'
+    /// or ',' (then MathCAT leaves them alone): from then on they are preferences of their own. Until then they are
+    /// DERIVED from Language, LanguageAuto and DecimalSeparator and must be what a fresh session derives from those.
+    derived_explicit: bool,
 }
 
 fn has_separator_number(src: &str) -> bool {
@@ -35,7 +39,7 @@ const SEP_PREFS: &[&str] = &["Language", "LanguageAuto", "DecimalSeparator", "De
 
 impl C10Checker {
     pub fn new(_t: &Trace, _s: usize) -> C10Checker {
-        C10Checker { sep_pref_changed_since_set: false, chem_pref_changed_since_set: false, checkpoints: 0 }
+        C10Checker { sep_pref_changed_since_set: false, chem_pref_changed_since_set: false, checkpoints: 0, derived_explicit: false }
     }
 
     /// `only`: compare just the getters named in `order` and do not call the others (sparse checkpoints: the rule sets of
@@ -79,7 +83,17 @@ impl C10Checker {
                 first[g] = Some(norm(&s.call(&getters[g])));
             }
         }
-        let prefs = prefs_for_reference(s);
+        let mut prefs = prefs_for_reference(s);
+        // derived separators are not handed to the fresh session: it has to arrive at the same values from Language,
+        // LanguageAuto and DecimalSeparator alone (copying them hid "DecimalSeparator: Auto -> ',' -> Auto leaves ','")
+        let held_seps = (
+            prefs.iter().find(|(n, _)| n == "DecimalSeparators").map(|(_, v)| v.clone()).unwrap_or_default(),
+            prefs.iter().find(|(n, _)| n == "BlockSeparators").map(|(_, v)| v.clone()).unwrap_or_default(),
+        );
+        let derived = !self.derived_explicit && prefs.iter().any(|(n, v)| n == "DecimalSeparator" && ["Auto", ".", ","].contains(&v.as_str()));
+        if derived {
+            prefs.retain(|(n, _)| n != "DecimalSeparators" && n != "BlockSeparators");
+        }
         let fs = s.world.lock().fs.clone();
         let r = reference_outputs(s, &fs, &dir, &prefs, &src);
         if let Some((n, e)) = r.setup_errors.iter().find(|(n, _)| n != "set_rules_dir" && n != "harness") {
@@ -92,6 +106,19 @@ impl C10Checker {
             );
             return;
         }
+        if derived && r.setup_errors.is_empty() && held_seps != r.seps {
+            s.violation_g(
+                "history-dependent-output",
+                "the separators derived from Language/LanguageAuto/DecimalSeparator differ from those of a fresh session with the same values".to_string(),
+                "derived separators differ from a fresh session".to_string(),
+                format!(
+                    "session: DecimalSeparators={:?} BlockSeparators={:?}\nfresh session: DecimalSeparators={:?} BlockSeparators={:?}\n(they decide how numbers are parsed by the next set_mathml; neither was set through the API in this history)\npreferences given to the fresh session: {:?}",
+                    held_seps.0, held_seps.1, r.seps.0, r.seps.1, r.applied
+                ),
+            );
+            return;
+        }
+        s.probe(if derived { "derived_separators_equal_fresh" } else { "separators_explicit" });
         let mut pairs: Vec<(&str, Res, Res)> = Vec::new();
         for (g, (name, exp)) in [("get_spoken_text", &r.speech), ("get_braille", &r.braille), ("get_overview_text", &r.overview)].iter().enumerate() {
             if let Some(got) = first[g].clone() {
@@ -138,7 +165,12 @@ impl C10Checker {
 impl Checker for C10Checker {
     fn after_call(&mut self, _s: &mut Sess, op: &Op, res: &Res) {
         match op {
-            Op::SetPref(n, _) if res.is_ok() && SEP_PREFS.contains(&n.as_str()) => self.sep_pref_changed_since_set = true,
+            Op::SetPref(n, v) if res.is_ok() && SEP_PREFS.contains(&n.as_str()) => {
+                self.sep_pref_changed_since_set = true;
+                if n == "DecimalSeparators" || n == "BlockSeparators" || (n == "DecimalSeparator" && !["Auto", ".", ","].contains(&v.as_str())) {
+                    self.derived_explicit = true;
+                }
+            }
             Op::SetPref(n, _) if res.is_ok() && n == "Chemistry" => self.chem_pref_changed_since_set = true,
             Op::SetMathml(_) if res.is_ok() => {
                 self.sep_pref_changed_since_set = false;
